@@ -74,7 +74,9 @@ def call(nb, lo, up, pr, scale: float, form: str, rtol: float = 0.0) -> dict:
             continue
         # elements against lower + k*precision: exact on dyadic scales, 1e-9-relative otherwise
         want = np.array([float(Fraction(flo[j]) + k * Fraction(fpr[j])) for k in range(len(g))])
-        tol = rtol * np.maximum(1.0, np.abs(want)) if rtol else 0.0
+        # np.arange derives its step from the first two elements, so element k carries an error of up to k ulp(lower): the
+        # tolerance is relative to the magnitude of the bounds, not of the element (which may be close to zero)
+        tol = rtol * max(1.0, abs(flo[j]), abs(fup[j])) if rtol else 0.0
         if not np.all(np.abs(g - want) <= tol):
             ev["even"] = False
         ev["firsts"].append(lo[j] if abs(g[0] - flo[j]) <= (rtol * max(1.0, abs(flo[j])) if rtol else 0.0) else -96)
